@@ -273,7 +273,7 @@ def run_plan(ctx, plan, rule, assumptions=(), reference=False, level="model_chec
         lap("GEN %s (%d edges, %d schedules)" % (name, edges, len(scheds)))
         if not scheds:
             raise vf.Infra("generator %s produced no schedules" % name)
-        cap = GEN_CAP_QUICK if ctx.quick else GEN_CAP_THOROUGH
+        cap = plan.get("gen_cap", GEN_CAP_QUICK if ctx.quick else GEN_CAP_THOROUGH)
         if len(scheds) > cap:
             # the executor handles ~500 traces/s: keep the tier inside its time budget with a seeded sample of the edge schedules
             import random
